@@ -26,6 +26,9 @@ theorem C15_gen_facts :
       [("deleteTxn", ["range block.Transactions"]), ("deleteTxn", ["range unspents", "len(value) == 0"])] ∧
     ElaVerif.Gen.C15.txCacheCallsFetch = ["GetTxn"] ∧
     ElaVerif.Gen.C15.blockCacheInvalidations = 0 ∧
+    -- inside SaveBlock's database transaction the index manager (the only step that fills the non-transactional
+    -- tx cache) comes after everything that can fail
+    ElaVerif.Gen.C15.saveBlockSteps = ["dbPutBestState", "dbPutBlockIndex", "processor", "c.indexManager.ConnectBlock"] ∧
     -- the path that disconnects blocks without cleaning the UTXO cache has no caller outside its own
     -- exported wrapper, and that wrapper has no caller at all
     ElaVerif.Gen.C15.reorganizeChain2Callers = ["blockchain/blockchain.go:ReorganizeChain2"] ∧
@@ -325,6 +328,28 @@ theorem C15_uidx_disconnect_block (u : UIdx) (txs : List BTx) (h : IdxInv u.txdb
             · exact Or.inl e'
           · right; simp only; rw [lookup_dropKey]; simp [hka, hk]
   exact key _ _ _ h.2 (Or.inl (List.mem_map.2 ⟨t, ht, rfl⟩))
+
+/-- `SaveBlock` with its steps in the order of the source (processors before the index manager): whether
+    or not a save processor fails, the cache stays consistent with the index. -/
+theorem C15_save_block_atomic (u : UIdx) (victims : List Nat) (height : Nat) (txs : List BTx) (ok : Bool)
+    (h : IdxInv u.txdb u.cache) (hnew : ∀ t ∈ txs, u.txdb.lookup t.h = none) (hnd : (txs.map (·.h)).Nodup) :
+    IdxInv (u.saveBlock victims height txs ok).txdb (u.saveBlock victims height txs ok).cache := by
+  unfold UIdx.saveBlock
+  split
+  · exact C15_uidx_connect_block u victims height txs h hnew hnd
+  · exact h
+
+/-- … and the order matters: with the index manager first, a failing processor leaves a transaction in the
+    cache that the (rolled back) index does not know — `FetchTx` then answers for a block that was never
+    connected. -/
+theorem C15_save_block_order_witness :
+    let u : UIdx := ⟨[], [], ⟨[], 5, 10000, false⟩⟩
+    let b : List BTx := [⟨1, 1, true, false, []⟩]
+    IdxInv u.txdb u.cache ∧
+    (u.saveBlockIndexFirst [] 7 b false).cache.fetch (u.saveBlockIndexFirst [] 7 b false).txdb 1 = some (7, 1) ∧
+    (u.saveBlockIndexFirst [] 7 b false).txdb.lookup 1 = none ∧
+    (u.saveBlock [] 7 b false).cache.fetch (u.saveBlock [] 7 b false).txdb 1 = none := by
+  refine ⟨⟨by intro h v hl; simp at hl, by intro _; rfl⟩, by decide, by decide, by decide⟩
 
 /-- a transaction without outputs is cached by connect and gone after disconnect -/
 example : let u : UIdx := ⟨[], [], ⟨[], 5, 10000, false⟩⟩
